@@ -20,7 +20,7 @@ from pbt.core import Collector, HarnessError, mksig
 
 ID = "C10"
 RULE = ("inner queries (joins, aliased terms outside the select list, GROUP BY/HAVING/ORDER BY, pagination, nested subqueries, set operations, values) x "
-        "11 embedding positions x 6 classes x inline/parameterised. Non-trivial = the inner query has an aliased term outside its select list, or is "
+        "20 embedding positions (FROM, JOIN, IN / NOT IN, comparison, select list, CTE, INSERT..SELECT, CREATE..AS, set-operation operands, HAVING, IN under a joined outer query / in a JOIN ON, IN / comparison / function argument as select-list items, function and arithmetic operands in WHERE) x 6 classes x 4 rendering entry points. Non-trivial = the inner query has an aliased term outside its select list, or is "
         "itself nested, or is a set operation; distinct = distinct (inner program, position, class, mode).")
 ASSUMPTIONS = [
     "brackets are required around the inner query at every position except INSERT..SELECT and MySQL / SQLite set-operation operands (their grammars have no bracketed operands)",
